@@ -453,6 +453,12 @@ func shrinkC08(body json.RawMessage) []json.RawMessage {
 }
 
 func init() {
+	kernel.RegisterWarmup(func() {
+		for _, c := range c08Configs {
+			nameUniverse(c)
+		}
+		restrictedNames()
+	})
 	kernel.Register(&kernel.Plan{
 		Property: "C08",
 		Level:    "exploration",
